@@ -4,7 +4,7 @@
    per-key locks; a schedule is any list of thread steps (Run), timer firings (Fire) and clock
    ticks (Tick) - ops that are not enabled do nothing.  brun sched (binit ls cmds) is therefore every
    reachable state of every history of every number of producers and consumers. *)
-From Nodis Require Import Model.Conc Model.Block Proofs.BlockProofs.
+From Nodis Require Import Model.Conc Model.Block Proofs.BlockProofs Proofs.BlockWakeProofs.
 From Coq Require Import ZArith List Bool Arith Lia.
 Import ListNotations.
 Local Open Scope Z_scope.
@@ -30,6 +30,44 @@ Theorem C18_null_only_after_timeout : forall ls cmds sched t x sd ks tmo,
 Proof. exact null_only_after_timeout. Qed.
 Print Assumptions C18_null_only_after_timeout.
 
+(* no lost wake-up ("delivered without undue delay", as a safety statement): in every reachable state a
+   consumer that sleeps in its select with no pending wake-up is registered on each of its keys and has
+   nothing to pop there - the key is empty, or a push that still holds the key lock (so nobody can pop
+   yet) stands at the point where it sends the wake-ups, this consumer's included.  A push made at any
+   moment after the consumer's registration therefore leaves it a wake-up; nothing depends on when the
+   consumer looked. *)
+Theorem C18_no_lost_wakeup : forall ls cmds sched t x sd ks tmo,
+  let s := brun sched (binit ls cmds) in
+  nget t (bths s) = Some x -> b_cmd x = BBlock sd ks tmo -> b_pc x = BWSelect -> mem t (tok s) = false ->
+  forall k, In k ks ->
+    In t (rget k (reg s)) /\
+    (lget k (lists s) = [] \/ exists u y, nget u (bths s) = Some y /\ notifyingb y k = true /\ nget k (klock s) = Some u).
+Proof. exact no_lost_wakeup. Qed.
+Print Assumptions C18_no_lost_wakeup.
+
+(* a push never fails, blocks or reports an error because of consumers coming, going or timing out:
+   (1) in every reachable state a key lock is held only by a push that is about to send its wake-ups
+   or by an RPOPLPUSH between its two keys - never by a consumer, blocked, woken or departing;
+   (2) a push that holds its lock always has its next step enabled, whatever the registry and the
+   channels look like; that step replies the new length and frees the lock;
+   (3) a push that has not started waits for the key lock and for nothing else. *)
+Theorem C18_lock_holders_are_producers : forall ls cmds sched k u,
+  let s := brun sched (binit ls cmds) in
+  nget k (klock s) = Some u -> exists x, nget u (bths s) = Some x /\ holdsb x k = true.
+Proof. exact lock_holders. Qed.
+Print Assumptions C18_lock_holders_are_producers.
+Theorem C18_push_never_waits_for_clients : forall s t x sd k vs,
+  nget t (bths s) = Some x -> b_cmd x = BPush sd k vs -> b_pc x = BPNotify ->
+  exists s', step_run t s = Some s' /\
+             breply t s' = Some (RInt (Z.of_nat (length (lget k (lists s))))) /\ nget k (klock s') = None.
+Proof. exact push_never_waits_for_clients. Qed.
+Print Assumptions C18_push_never_waits_for_clients.
+Theorem C18_push_start_needs_only_the_key_lock : forall s t x sd k vs,
+  nget t (bths s) = Some x -> b_cmd x = BPush sd k vs -> b_pc x = BStart ->
+  enabled (Run t) s = lock_is_free k s.
+Proof. exact push_start_needs_only_the_key_lock. Qed.
+Print Assumptions C18_push_start_needs_only_the_key_lock.
+
 (* non-vacuous: two consumers (one with timeout 0) wait on an empty key, one RPUSH of two elements:
    BLPOP gets the head, BRPOP the tail, the push replies 2; a third consumer times out at 50 ms *)
 Example C18_nonvacuous :
@@ -40,3 +78,12 @@ Example C18_nonvacuous :
   breply 0 s = Some (RBlock (Some (1%nat, 7))) /\ breply 1 s = Some (RBlock (Some (1%nat, 8))) /\
   breply 2 s = Some (RInt 2) /\ breply 3 s = Some (RBlock None) /\ lget 1 (lists s) = [] /\ reg s = [(1%nat, []); (2%nat, []); (3%nat, [])].
 Proof. vm_compute. repeat split; reflexivity. Qed.
+
+(* the hypotheses of C18_no_lost_wakeup are met in the interesting case: the consumer sleeps without a
+   wake-up while the list is already non-empty - because the push is between its two steps *)
+Example C18_no_lost_wakeup_nonvacuous :
+  let s := brun [Run 0; Run 0; Run 0; Run 1]%nat (binit [] [BBlock SL [1%nat] 0; BPush SR 1%nat [7]]) in
+  (exists x, nget 0%nat (bths s) = Some x /\ b_pc x = BWSelect) /\ mem 0%nat (tok s) = false /\
+  lget 1 (lists s) = [7] /\ nget 1%nat (klock s) = Some 1%nat /\ enabled (Run 0%nat) s = false /\
+  enabled (Run 0%nat) (brun [Run 1]%nat s) = true.
+Proof. vm_compute. repeat split; try reflexivity. eexists; split; reflexivity. Qed.
